@@ -53,6 +53,9 @@ type replayer struct {
 	arrays map[string][]*big.Int
 	ct     *Contract
 	imports map[string]string // path -> name
+	parseOK map[string]bool
+	parseVal map[string]*big.Int
+	parseSigned map[string]bool
 	pkg    *types.Package
 }
 
@@ -102,7 +105,7 @@ func Replay(w *World, r *FnResult, o *Obligation, repo, tmp string) *ReplayResul
 		return res
 	}
 	c := r.Ctx
-	rp := &replayer{w: w, r: r, model: map[string]*big.Int{}, bools: map[string]bool{}, arrays: map[string][]*big.Int{}, ct: r.Contract, imports: map[string]string{}}
+	rp := &replayer{w: w, r: r, model: map[string]*big.Int{}, bools: map[string]bool{}, arrays: map[string][]*big.Int{}, ct: r.Contract, imports: map[string]string{}, parseOK: map[string]bool{}, parseVal: map[string]*big.Int{}, parseSigned: map[string]bool{}}
 	if e.Root.Pkg != nil {
 		rp.pkg = e.Root.Pkg.Pkg
 	}
@@ -127,6 +130,37 @@ func Replay(w *World, r *FnResult, o *Obligation, repo, tmp string) *ReplayResul
 		}
 		qn = append(qn, n)
 		qt = append(qt, c.Var(n, c.Decls[n].Ret))
+	}
+	// uninterpreted parse functions applied to input strings: ask for their values too
+	type parseApp struct {
+		t    *Term
+		name string // strid var name
+		ok   bool
+	}
+	var papps []parseApp
+	{
+		seen := map[*Term]bool{}
+		var rec func(t *Term)
+		rec = func(t *Term) {
+			if seen[t] {
+				return
+			}
+			seen[t] = true
+			if t.Op == "app" && (t.Name == "parse_ok" || strings.HasPrefix(t.Name, "parse_val_")) && len(t.Args) == 3 && t.Args[0].Op == "var" {
+				papps = append(papps, parseApp{t: t, name: t.Args[0].Name, ok: t.Name == "parse_ok"})
+			}
+			for _, a := range t.Args {
+				rec(a)
+			}
+		}
+		for _, t := range base {
+			rec(t)
+		}
+	}
+	nScalar := len(qt)
+	for _, pa := range papps {
+		qt = append(qt, pa.t)
+		qn = append(qn, "")
 	}
 	// prefer small models: bound all length-like variables
 	var small []*Term
@@ -153,6 +187,23 @@ func Replay(w *World, r *FnResult, o *Obligation, repo, tmp string) *ReplayResul
 	for i, n := range qn {
 		v, b, ok := parseSMTValue(sr.Ordered[i])
 		if !ok {
+			continue
+		}
+		if i >= nScalar {
+			pa := papps[i-nScalar]
+			key := strings.TrimSuffix(strings.TrimPrefix(pa.name, "strid."), ".arr")
+			if pa.ok {
+				rp.parseOK[key] = b
+				pins = append(pins, c.Eq(pa.t, c.Bool(b)))
+			} else {
+				if pa.t.S.IsBV() && strings.Contains(pa.t.Name, "BitVec") {
+					rp.parseVal[key] = v
+				} else {
+					rp.parseVal[key] = v
+				}
+				rp.parseSigned[key] = true
+				pins = append(pins, c.Eq(pa.t, c.NumConst(v, pa.t.S)))
+			}
 			continue
 		}
 		if qt[i].S.IsBool() {
@@ -366,6 +417,25 @@ func (rp *replayer) cv(t types.Type, name string, depth int) *CV {
 			n := 0
 			if v, ok := rp.model[name+".len"]; ok {
 				n = int(v.Int64())
+			}
+			if okp, has := rp.parseOK[name]; has && n > 0 {
+				// the string is consumed by strconv: build it from the modelled parse result
+				str := "x"
+				if okp {
+					v := rp.parseVal[name]
+					if v == nil {
+						v = big.NewInt(0)
+					}
+					if !rp.r.Exec.IntMode {
+						v = toSigned(v, 64)
+					}
+					str = v.String()
+				}
+				cv := &CV{K: "bytes", T: t}
+				for i := 0; i < len(str); i++ {
+					cv.Elems = append(cv.Elems, big.NewInt(int64(str[i])))
+				}
+				return cv
 			}
 			return &CV{K: "bytes", T: t, Elems: rp.arr(name, n)}
 		}
